@@ -95,6 +95,15 @@ Theorem c02_necessity_one_signature : admits_wrapping no_onesig Ex.doc_f1.
 Proof. exact necessity_onesig. Qed.
 Print Assumptions c02_necessity_one_signature.
 
+(* a nested earlier signature admits a wrapping document when only direct children are inspected *)
+Theorem c02_necessity_first_signature_is_child : admits_wrapping no_iter doc_nested_first.
+Proof. exact necessity_first_signature_is_child. Qed.
+Print Assumptions c02_necessity_first_signature_is_child.
+(* a case-insensitive comparison of the Reference URI with the ID admits one *)
+Theorem c02_necessity_exact_id : admits_wrapping no_exact doc_case_id.
+Proof. exact necessity_exact_id. Qed.
+Print Assumptions c02_necessity_exact_id.
+
 (* the hypotheses are satisfiable: the genuine message satisfies the oracle assumptions, is accepted with
    alice's identity, and the example primitives are ideal *)
 Theorem c02_nonvacuous :
